@@ -14,6 +14,7 @@ from . import dbg, proggen, progrun, proto
 RECURSION = """
 SET(R1, 4)
 SET(R2, 0)
+MOVE(FP_alt, SP)
 CALL(FP_alt, down)
 SET(R5, 77)
 HALT()
@@ -24,6 +25,7 @@ STORE(FP_alt, 1, FP)
 ADD(R2, R2, R1)
 DEC(R1, 1)
 BZ(done)
+MOVE(FP_alt, SP)
 CALL(FP_alt, down)
 LABEL(done)
 LOAD(PC_ret, 0, FP)
@@ -82,7 +84,43 @@ HALT() SET(R6, 1)
 LABEL(f) INC(R5, 1) RETURN(FP_alt, PC_ret) INC(R5, 7)
 """
 
-FIXED = [RECURSION, NESTED, WARNS, SAME_LINE]
+MUTUAL = """
+SET(R1, 5)
+MOVE(FP_alt, SP)
+CALL(FP_alt, even)
+SET(R6, 9)
+HALT()
+LABEL(even)
+INC(SP, 2)
+STORE(PC_ret, 0, FP)
+STORE(FP_alt, 1, FP)
+DEC(R1, 1)
+BS(evdone)
+MOVE(FP_alt, SP)
+CALL(FP_alt, odd)
+INC(R2, 1)
+LABEL(evdone)
+LOAD(PC_ret, 0, FP)
+LOAD(FP_alt, 1, FP)
+DEC(SP, 2)
+RETURN(FP_alt, PC_ret)
+LABEL(odd)
+INC(SP, 2)
+STORE(PC_ret, 0, FP)
+STORE(FP_alt, 1, FP)
+DEC(R1, 1)
+BS(oddone)
+MOVE(FP_alt, SP)
+CALL(FP_alt, even)
+INC(R3, 1)
+LABEL(oddone)
+LOAD(PC_ret, 0, FP)
+LOAD(FP_alt, 1, FP)
+DEC(SP, 2)
+RETURN(FP_alt, PC_ret)
+"""
+
+FIXED = [RECURSION, NESTED, WARNS, SAME_LINE, MUTUAL]
 
 
 def gen_program(rng, seed):
@@ -281,13 +319,13 @@ def make_settings(mode, opts):
     return progrun.make_settings(mode=mode, **o)
 
 
-def load_terminating(text, opts, max_steps=4000):
-    st = make_settings("debug", opts)
+def load_terminating(text, opts, max_steps=4000, mode="debug"):
+    st = make_settings(mode, opts)
     prog, out, errs, exc = progrun.load(text, st)
     if prog is None or not prog.code or progrun.has_eval(prog):
         return None
     import hera.vm as V
-    vm = V.VirtualMachine(make_settings("debug", opts))
+    vm = V.VirtualMachine(make_settings(mode, opts))
     with proto.Capture() as cap:
         try:
             for d in prog.data:
@@ -305,7 +343,9 @@ def load_terminating(text, opts, max_steps=4000):
 
 
 def interp_result(text, opts):
-    st = make_settings("debug", opts)
+    # the interpreter side is loaded and run the way `hera prog.hera` does it (mode ""), the debugger side the way
+    # `hera debug prog.hera` does (mode "debug"): what depends on the mode while loading is part of the comparison
+    st = make_settings("", opts)
     prog, out, errs, exc = progrun.load(text, st)
     vm, out, diags, exc = progrun.real_run(prog, st)
     return vm, out, diags, exc
@@ -329,7 +369,12 @@ def debugger_session(text, opts):
 def c11_case(text, opts, cmds):
     """Returns a description of the difference, or None."""
     if load_terminating(text, opts) is None:
+        if load_terminating(text, opts, max_steps=400, mode="") is not None:
+            return "the program terminates (within 400 operations) as loaded for the interpreter but not (within 4000) as loaded for the debugger"
         return "skip"
+    if load_terminating(text, opts, max_steps=40000, mode="") is None:
+        # the program as the debugger loads it ends within 4000 operations, as the interpreter loads it it does not end in 40000
+        return "the program terminates as loaded for the debugger but not as loaded for the interpreter"
     vm_i, out_i, diags_i, exc_i = interp_result(text, opts)
     shell, st, prog, out0, errs0 = debugger_session(text, opts)
     outs, errs_all = [out0], list(errs0)
@@ -489,10 +534,75 @@ def c12_case(text, opts, cmds):
     return None, done
 
 
+def call_policy_sessions():
+    """Systematic: on the programs with recursion and nested calls, `step` into the first j CALLs met, then `next` over
+    every further CALL (so `next` is issued on recursive CALLs from inside the recursion), with and without a breakpoint."""
+    out = []
+    for text in (RECURSION, MUTUAL, NESTED):
+        for j in range(0, 6):
+            for brk in (None, "done" if text is RECURSION else None):
+                out.append((text, j, brk))
+    return out
+
+
+def policy_case(text, j, brk):
+    prog0 = load_terminating(text, {})
+    if prog0 is None:
+        return "skip", 0, []
+    shell, st, prog, out0, errs0 = debugger_session(text, {})
+    ref = Ref(prog, make_settings("debug", {}))
+    cmds, done, stepped = [], 0, 0
+    if brk:
+        cmds.append("break " + brk)
+    for _ in range(80):
+        if ref.finished():
+            break
+        on_call = ref.code[ref.vm.pc].original.name == "CALL"
+        cmds.append("step" if (on_call and stepped < j) else "next")
+        stepped += 1 if (on_call and stepped < j) else 0
+        # run this one command on both
+        c = cmds[-1]
+        break_cmd = None
+        if len(cmds) == 1 and brk:
+            pass
+        with proto.Capture() as cap:
+            if c == "step":
+                ref.step()
+            else:
+                ref.next()
+            cap.take()
+        if done == 0 and brk:
+            b = ref_location(ref, brk)
+            ref.breaks.add(b)
+            dbg.feed(shell, "break " + brk, limit=5)
+        out, errs, exc, cont = dbg.feed(shell, c, limit=5)
+        done += 1
+        if exc:
+            return "{!r} raised {}".format(c, exc), done, cmds
+        d = diff_state(state_of(ref.vm), state_of(shell.debugger.vm))
+        if d:
+            return "after {!r} (command {} of the policy 'step into the first {} calls, then next'): {}".format(c, done, j, d), done, cmds
+        po, blocks = split_output(out)
+        got = shown_line(blocks[-1]) if blocks else -2
+        if got != ref.shown():
+            return "after {!r}: the debugger shows line {} but the next instruction is on line {}".format(c, got, ref.shown()), done, cmds
+    return None, done, cmds
+
+
 def check_c12(seed, n):
     rng = random.Random(seed)
     violations, evals, dist = [], 0, {"programs": 0, "commands": 0}
     seen = set()
+    for text, j, brk in call_policy_sessions():
+        r, done, cmds = policy_case(text, j, brk)
+        if r == "skip":
+            continue
+        evals += done
+        dist["policy_sessions"] = dist.get("policy_sessions", 0) + 1
+        seen.add((text, j, brk))
+        if r:
+            violations.append({"property": "C12", "stream": "c12policy", "sig": "c12policy:" + re.sub(r"[0-9]+", "N", r)[:50],
+                               "case": {"text": text, "policy": j, "break": brk, "cmds": cmds}, "what": r})
     for k in range(n):
         text = gen_program(rng, seed * 6007 + k)
         opts = options(rng) if rng.random() < 0.3 else {}
@@ -544,7 +654,7 @@ def gen_c13_cmds(rng, prog):
     from hera.data import Label
     lines = sorted({op.loc.line for op in prog.code})
     labels = [k for k, v in prog.symbol_table.items() if isinstance(v, Label)]
-    cmds = []
+    cmds, broken = [], []
     for _ in range(rng.choice([2, 4, 8, 14, 24])):
         k = rng.random()
         if k < 0.25:
@@ -564,9 +674,13 @@ def gen_c13_cmds(rng, prog):
         elif k < 0.82:
             cmds.append("goto " + rng.choice([str(l) for l in lines] + labels + ["nolabel"]))
         elif k < 0.89:
-            cmds.append("break " + rng.choice([str(l) for l in lines] + labels + [".", "nolabel"]))
+            where = rng.choice([str(l) for l in lines] + labels + [".", "nolabel"])
+            cmds.append("break " + where)
+            broken.append(where)
         elif k < 0.93:
-            cmds.append("clear " + rng.choice([str(l) for l in lines] + ["*"]))
+            # one or several locations in one command, mostly ones that were given to `break` before
+            pool = (broken * 3 if broken else []) + [str(l) for l in lines] + ["*", "nolabel"]
+            cmds.append("clear " + " ".join(rng.choice(pool) for _ in range(rng.choice([1, 1, 2, 2, 3]))))
         elif k < 0.97:
             cmds.append(rng.choice(["on", "off"]) + " " + rng.choice(["c", "cb", "v s", "z", "x"]))
         else:
@@ -655,6 +769,32 @@ FLAG_IDX = {"flag_sign": 0, "flag_zero": 1, "flag_overflow": 2, "flag_carry": 3,
 MODELLED = ("next", "n", "step", "s", "continue", "c", "break", "clear", "restart", "undo", "goto", "on", "off")
 
 
+def assign_cmd(shell, lhs, rhs):
+    """model command for an assignment, evaluated on the real shell before the command runs"""
+    from hera.debugger import miniparser as MP
+    from hera.data import HERAError
+    noop = ["n 0"]
+    try:
+        lt, rt = MP.parse(lhs), MP.parse(rhs)
+    except SyntaxError:
+        return noop
+    if len(lt.seq) != 1 or len(rt.seq) != 1:
+        return noop
+    lt, rt = lt.seq[0], rt.seq[0]
+    try:
+        v = int(shell.evaluate_node(rt))
+        if isinstance(lt, MP.RegisterNode):
+            return ["ar {} {}".format(int(lt.value), v)]
+        if isinstance(lt, MP.MemoryNode):
+            a = int(shell.evaluate_node(lt.address))
+            return ["am {} {}".format(a, v)]
+        if isinstance(lt, MP.SymbolNode) and lt.value == "pc":
+            return ["ap {}".format(v)]
+    except HERAError:
+        return noop
+    return noop
+
+
 def modelled(cmds):
     return all(c.split()[0] in MODELLED for c in cmds)
 
@@ -667,6 +807,12 @@ def to_model_cmd(shell, c):
     parts = c.split()
     k = parts[0]
     noop = ["n 0"]
+    if k == "assign":
+        return assign_cmd(shell, parts[1], parts[2]) if len(parts) == 3 else noop
+    if "=" in c and k not in MODELLED:
+        lhs, rhs = c.split("=", 1)
+        # the shell splits the two sides at blanks only when the command word is known; here it hands over both halves
+        return assign_cmd(shell, lhs, rhs)
     if k in ("next", "n"):
         if len(parts) > 2:
             return noop
@@ -702,11 +848,11 @@ def to_model_cmd(shell, c):
         out = []
         for a in parts[1:]:
             try:
-                out.append("x {}".format(int(shell.debugger.location_to_instruction_number(a))))
+                out.append(int(shell.debugger.location_to_instruction_number(a)))
             except ValueError:
                 pass
-        # several clears inside one command are one snapshot: only single-argument clears are generated
-        return out[:1] if out else noop
+        # several locations inside one command are one snapshot
+        return ["x " + proto.w_list(out)] if out else noop
     if k in ("on", "off"):
         if len(parts) == 1:
             return noop
@@ -771,7 +917,7 @@ def check_model(seed, n):
         prog = load_terminating(text, opts)
         if prog is None:
             continue
-        cmds = [c for c in (gen_c13_cmds(rng, prog) if k % 2 else gen_c12_cmds(rng, prog)) if c.split()[0] in MODELLED
+        cmds = [c for c in (gen_c13_cmds(rng, prog) if k % 2 else gen_c12_cmds(rng, prog)) if (c.split()[0] in MODELLED or "=" in c)
                 and not (c.split()[0] in ("on", "off") and len(c.split()) != 2) and c != "break"]
         r = model_case(text, opts, cmds)
         if r is None:
